@@ -333,6 +333,14 @@ func renderTTML(d ttmlDoc, r ttmlRendering) []byte {
 		spanOpen := false
 		var cur ttmlRun
 		for li, l := range c.Lines {
+			if len(l) == 0 && li > 0 {
+				// an empty line: nothing but its line break
+				if spanOpen && !r.BrInSpan {
+					sb.WriteString("</span>")
+					spanOpen = false
+				}
+				sb.WriteString(br)
+			}
 			for ri, run := range l {
 				lineBreakBefore := li > 0 && ri == 0
 				if lineBreakBefore {
@@ -893,6 +901,19 @@ func genTTMLDoc(t *rapid.T, write bool) ttmlDoc {
 		d.Cues = append(d.Cues, c)
 	}
 	return d
+}
+
+// addEmptyLines gives some cues an empty line: two line breaks in a row, a break right after <p> or right before </p>.
+func addEmptyLines(t *rapid.T, d *ttmlDoc) {
+	for i := range d.Cues {
+		c := &d.Cues[i]
+		if rapid.IntRange(0, 3).Draw(t, "emptyline") == 0 {
+			at := rapid.IntRange(0, len(c.Lines)).Draw(t, "emptyat")
+			ls := append([][]ttmlRun(nil), c.Lines[:at]...)
+			ls = append(ls, []ttmlRun{})
+			c.Lines = append(ls, c.Lines[at:]...)
+		}
+	}
 }
 
 func genTTMLRendering(t *rapid.T) ttmlRendering {
